@@ -52,6 +52,7 @@ static struct {
     int shard, nshards;
     int64_t only;        /* -1: all */
     int64_t skip;        /* run only cases with idx >= skip */
+    int partition;       /* >= 0: cases belong to shard (partition % nshards) instead of idx % nshards */
     bool verbose;
     FILE *out;
     struct mc_inflight *inflight;
@@ -149,6 +150,7 @@ mc_init(int argc, char **argv)
     mc.nshards = 1;
     mc.only = -1;
     mc.skip = 0;
+    mc.partition = -1;
     mc.out = NULL;
     mc.inflight = &mc.inflight_local;
     mc.cur = -1;
@@ -229,7 +231,7 @@ mc_case(const char *fmt, ...)
     if (mc.only >= 0) {
         if (i != mc.only)
             return false;
-    } else if (i < mc.skip || (i % mc.nshards) != mc.shard) {
+    } else if (i < mc.skip || ((mc.partition >= 0 ? mc.partition : i) % mc.nshards) != mc.shard) {
         return false;
     }
     mc.active = true;
@@ -259,7 +261,25 @@ mc_would_run(void)
     const int64_t i = mc.idx;
     if (mc.only >= 0)
         return i == mc.only;
-    return !(i < mc.skip || (i % mc.nshards) != mc.shard);
+    return !(i < mc.skip || ((mc.partition >= 0 ? mc.partition : i) % mc.nshards) != mc.shard);
+}
+
+/* Explicit-state searches cannot be split case by case (every process would
+ * have to redo the whole search).  They are split by partition instead: all
+ * cases numbered while partition p is set belong to shard p % nshards, and
+ * case numbers restart at p << 40 so that they do not depend on which other
+ * partitions a process explored.  mc_partition(-1) returns to per-case
+ * sharding.  Returns true when this process has to explore the partition. */
+static bool
+mc_partition(int p, int64_t index_base)
+{
+    mc.partition = p;
+    mc.idx = index_base << 40;
+    if (p < 0)
+        return true;
+    if (mc.only >= 0)
+        return (mc.only >> 40) == index_base;
+    return (p % mc.nshards) == mc.shard;
 }
 
 static inline void mc_skip_case(void) { mc.idx++; }
@@ -343,7 +363,7 @@ mc_end(bool nontrivial, const char *outcome)
                mc.cur_failed);
 }
 
-static inline void mc_trans(int64_t n) { mc.transitions += n; }
+static inline void mc_trans(int64_t n) { if (mc.active) mc.transitions += n; }
 
 static void
 mc_cap(const char *fmt, ...)
